@@ -593,6 +593,12 @@ func (e *Engine) nextRuneSymbolic(st *State, fr *Frame, x *ssa.Next, it IterV, i
 	z32 := func(t *Term) *Term { return c.ZeroExt(t, 24) }
 	inr := func(t *Term, lo, hi uint64) *Term { return c.And(c.BVUle(bv8(lo), t), c.BVUle(t, bv8(hi))) }
 	ascii := c.BVUlt(b0, bv8(0x80))
+	if ascii.IsTrue() || !e.feasible(st, c.Not(ascii), "utf8 non-ascii") {
+		// only the one-byte form is possible here: no fork, nothing to add to the path condition
+		fr.regs[x.Iter] = IterV{Str: it.Str, Pos: pos + 1}
+		fr.regs[x] = TupleV{c.True, c.BV(uint64(pos), 64), z32(b0)}
+		return true
+	}
 	alts = append(alts, alt{ascii, z32(b0), 1})
 	valid := c.False
 	rem := len(s.B) - pos
